@@ -252,4 +252,42 @@ def grun (b : Builder) (v : View) (s : GState) : List GStmt → GState
     | .ok s' => grun b v s' rest
     | .error _ => grun b v s rest
 
+/-! ### coordinate forms: STEP offsets and the graphics cursor (`_last_point`), no WINDOW, integer arguments -/
+
+/-- `_get_window_physical(x, y, step)` with the cursor at `last` -/
+def resolve (last : Int × Int) (step : Bool) (x y : Int) : Int × Int :=
+  if step then (last.1 + x, last.2 + y) else (x, y)
+
+/-- a coordinate pair as written: `(x,y)` or `STEP(x,y)` -/
+structure Coord where
+  step : Bool
+  x : Int
+  y : Int
+
+/-- `line_`: first corner (omitted: the cursor), cursor := first corner, second corner, cursor := second corner.
+    Result: (first corner, second corner, cursor afterwards) -/
+def lineCorners (last : Int × Int) (first : Option Coord) (second : Coord) : (Int × Int) × (Int × Int) × (Int × Int) :=
+  let p0 := match first with
+    | some c => resolve last c.step c.x c.y
+    | none => last
+  let p1 := resolve p0 second.step second.x second.y
+  (p0, p1, p1)
+
+/-- `get_`: the first corner is absolute, the cursor is set to it, then the second corner is resolved -/
+def getCorners (_last : Int × Int) (x0 y0 : Int) (second : Coord) : (Int × Int) × (Int × Int) × (Int × Int) :=
+  let p0 := (x0, y0)
+  let p1 := resolve p0 second.step second.x second.y
+  (p0, p1, p1)
+
+/-- `get_` without the intermediate `self._last_point = x0, y0` (seeded change C31e) -/
+def getCornersNoStore (last : Int × Int) (x0 y0 : Int) (second : Coord) : (Int × Int) × (Int × Int) × (Int × Int) :=
+  let p0 := (x0, y0)
+  let p1 := resolve last second.step second.x second.y
+  (p0, p1, p1)
+
+/-- `_pset_preset`, `circle_`, `paint_` (seed on the screen), `put_`: one point, the cursor is left on it -/
+def pointStmt (last : Int × Int) (c : Coord) : (Int × Int) × (Int × Int) :=
+  let p := resolve last c.step c.x c.y
+  (p, p)
+
 end PcbV.Sprite
